@@ -285,7 +285,11 @@ func (v *VStruct) exist(isValidTvKind bool, structName, fieldName, cusMsg string
 	if tv.IsZero() {
 		return
 	}
-	switch tv.Kind() {
+	kind := tv.Kind()
+	if kind == reflect.Ptr && RemoveTypePtr(tv.Type()).Kind() != reflect.Struct {
+		kind = reflect.Invalid // 指向非结构体的指针(如: *int), 没有可向下验证的内容
+	}
+	switch kind {
 	case reflect.Ptr, reflect.Struct:
 		if tv.Type() == timeReflectType {
 			return
